@@ -171,5 +171,32 @@ PROPS["C20"] = {
     "assumptions": ["the box-decoder registries are not modified while goroutines run (as the property states)"],
 }
 
+
+TOOLS = ["cmd/mp4ff-crop", "examples/segmenter", "examples/resegmenter", "examples/combine-segs"]
+
+PROPS["C10"] = {
+    "level": "proof",
+    "tools": TOOLS,
+    "technique": "Lean 4 proof (every table-cropping routine against the naive per-sample expansion; cut point = number of samples starting before the end time; interleaved chunk layout) + model-vs-tool correspondence on the tables of the file the built mp4ff-crop binary writes + independent raw-byte oracle",
+    "level_text": "Model lean/Mp4ff/Model/Crop.lean transcribes cmd/mp4ff-crop/main.go (findEndTime, findTrakEnds, cropStts/Stss/Ctts/Stsc/Stsz/Sdtp, fillTrakOutsAndByteRanges, byteRanges.addRange) on the proved sample-table queries of C09; theorems in Props/C10.lean. Tie: the binary is built from the working tree on every run; for a sample of successful runs the tables of the input go through the model's `cropAll` and the result (k per track, every cropped table, every new chunk offset, the merged byte ranges) is compared with the tables parsed from the output file. Direct oracle on every run: independent raw-byte expansion of input and output (own box walker and table parsing), expected k per track from the statement with exact rational arithmetic, prefix equality of bytes/durations/offsets/sync flags, chunk offsets inside the new mdat, mdat tiled exactly, header durations not above the originals.",
+    "level_note": "Trusted: Lean kernel, allowed axioms, hand transcription validated by the correspondence; the tool is package main, observed only through its output file (the replay re-runs the binary).",
+    "trusted": ["Model/Crop.lean hand transcription of cmd/mp4ff-crop/main.go", "the built binary is the observation point (no source hook)"],
+    "unmodelled": ["writeUptoMdat duration updates (mvhd/tkhd/elst): direct oracle only", "CLI flag parsing, file I/O"],
+    "partial": [],
+    "assumptions": ["table sums below 2^32 / 2^64", "chunk offsets below 2^62 (the tool's sentinel)"],
+}
+
+PROPS["C11"] = {
+    "level": "proof",
+    "tools": TOOLS,
+    "technique": "Lean 4 proof (the three grouping algorithms split the sample sequence into consecutive groups whose concatenation is the input; interval partition of 1..N; sync starts) + correspondence of group sizes with the built tools / the library API + sample-conservation oracle on every output",
+    "level_text": "Model lean/Mp4ff/Model/Segmenter.lean transcribes examples/segmenter/segment.go (getSegmentStartsFromVideo, getSegmentIntervals), examples/resegmenter/resegment.go (Resegment loop) and mp4/mediasegment.go (Fragmentify); theorems in Props/C11.lean. Tie: binaries built from the working tree on every run; group sizes computed by the model are compared with the number of samples in every output segment/fragment. Direct oracle: every output of every tool mode (segmenter single/lazy/mux/muxlazy, resegmenter, Fragmentify through the API, combine-segs) is decoded and expanded with GetFullSamples and the concatenated per-track sample sequence compared with the input's (count, bytes, durations, flags, composition offsets, decode times); every produced segment starts with a sync sample of the reference track.",
+    "level_note": "Trusted: Lean kernel, allowed axioms, hand transcription validated by correspondence; examples are package main, observed through their output files.",
+    "trusted": ["Model/Segmenter.lean hand transcription of the three grouping loops"],
+    "unmodelled": ["sample copying (GetFullSamplesForInterval, copyMediaData, AddFullSampleToTrack): direct oracle only", "combine-segs (multiplexing of two single-track segments): direct oracle only", "init segment creation of the segmenter"],
+    "partial": [],
+    "assumptions": ["positive sample durations for the sync-start theorem of the segmenter's reference track", "sums of durations below 2^32 for Fragmentify's uint32 accumulator"],
+}
+
 # reasons for properties that are not claimed (yet)
 NOT_CLAIMED = {}
